@@ -30,6 +30,28 @@ KANI_RANGES = {
 }
 
 import c15_extract
+import c12_extract
+
+_PO = ["po_1_1", "po_2_1", "po_1_2", "po_2_2", "po_3_1", "po_3_2"]
+KANI_NEGOTIATION = {
+    "name": "c12_kani_negotiation",
+    "cwd": lambda repo, root: __import__("os").path.join(root, "kani-crates", "c12"),
+    "prepare": c12_extract.prepare,
+    "module": "proofs",
+    "harness_files": ["kani-crates/c12/src/lib.rs"],
+    "features": [],
+    "flags": [],
+    "quick": ["matching_predicate", "model_tail_sort", "concrete_d5"] + ["%s::%s" % (m, h) for m in _PO[:4]
+                                                                       for h in ("precondition_satisfiable", "check")],
+    "thorough": ["matching_predicate", "model_tail_sort", "concrete_d5"] + ["%s::%s" % (m, h) for m in _PO
+                                                                          for h in ("precondition_satisfiable", "check")],
+    "timeout": 1200,
+    "procs": 8,
+    "target_tag": "c12",
+    "bounded": "at most 3 supported locales and 2 requested languages; subtags over a closed universe (2 languages + "
+               "und, 2 scripts, 2 regions, at most one variant out of 2)",
+    "source_hint": "leptos_i18n/src/langid.rs",
+}
 
 
 def _c15(name, features):
@@ -95,6 +117,14 @@ PROPS = {
         "level": "proof",
         "verus": ["c19_config"],
         "kani": [],
+    },
+    "C12": {
+        "level": "model_checking",
+        "verus": [],
+        "kani": [KANI_NEGOTIATION],
+        "explanation": "bounded model checking (Kani/CBMC) of the negotiation functions of langid.rs, extracted verbatim "
+                       "(one rewrite) and compiled against small stand-ins for icu_locid's types and for std's Vec; "
+                       "a stand-in, not a proof: list lengths and the subtag universe are bounded",
     },
     "C18": {
         "level": "model_checking",
